@@ -414,6 +414,12 @@ func (mr *msgReader) Read(p []byte) (n int, err error) {
 	}
 	defer mr.c.readMu.unlock()
 
+	if mr.flate && mr.flateReader == nil {
+		// The message has been read to completion and its flate reader was
+		// returned to the pool where another connection may have picked it up.
+		return 0, io.EOF
+	}
+
 	n, err = mr.limitReader.Read(p)
 	// mr.dict is nil if the connection was closed during the read
 	// i.e. a close frame was received in between the fragments of this message.
